@@ -296,6 +296,11 @@ func (g *c18Gram) all() []string {
 	thorough := g.fullL1
 	// L2: aggregations
 	aggIn := inner("m", thorough)
+	if thorough {
+		for _, o := range g.offsets[2:] {
+			aggIn = append(aggIn, "m"+o, "rate(m[1m]"+o+")")
+		}
+	}
 	if !thorough {
 		aggIn = []string{"m", "m offset 1m", `m{job=~"a|b"}`, "rate(m[1m])", "delta(m[5m])", "avg_over_time(m[1m] offset 1m)"}
 	}
